@@ -579,9 +579,9 @@ def all_instances(tier, names):
 # ------------------------------------------------------------------------------------------
 # the unit function
 
-BUDGET = {  # (pairs, random full tuples, negative-valued tensors on/off)
-    "quick": dict(pairs=40, rand=16, second_step=6),
-    "thorough": dict(pairs=160, rand=60, second_step=20),
+BUDGET = {  # number of index tuples per operator instance and family
+    "quick": dict(singles=48, pairs=20, rand=8, ellipsis=7, rank2=8, negval=2, second_step=2),
+    "thorough": dict(singles=150, pairs=70, rand=24, ellipsis=14, rank2=24, negval=4, second_step=6),
 }
 
 
@@ -593,6 +593,7 @@ def rtc_getitem(case_names, tier):
     from contracts.rtc_common import Recorder
     from engine.common import SEED
 
+    torch.set_num_threads(1)  # tiny tensors; one OS process per unit already
     O = linear_operator.operators
     LO = O.LinearOperator
     rec = Recorder(PID)
@@ -649,17 +650,21 @@ def rtc_getitem(case_names, tier):
                             rec.check(f"diagonal/{c.name}", lab, ok, f"shape {tuple(r.shape)} dtype {r.dtype} vs {tuple(expd.shape)} {expd.dtype}"
                                       if not (torch.is_tensor(r) and r.shape == expd.shape and r.dtype == expd.dtype) else "values differ from diag(D)")
 
-        # ---- index tuples
-        idxs = list(ig.singles())
+        # ---- index tuples: a stratified, rotating 1/k sample of every family (offset = hash of the instance label,
+        #      so the instances of one case together cover every stratum several times)
+        def take(lst, n):
+            if n <= 0 or not lst:
+                return []
+            stride = max(1, -(-len(lst) // n))
+            return lst[seed % stride::stride]
+
+        idxs = take(ig.singles(), bud["singles"])
         pairs = ig.all_pairs()
-        if pairs:
-            stride = max(1, len(pairs) // bud["pairs"])
-            off = seed % stride
-            idxs += [ig.pair(*pairs[k]) for k in range(off, len(pairs), stride)]
+        idxs += [ig.pair(*pq) for pq in take(pairs, bud["pairs"])]
         idxs += [ig.random_full() for _ in range(bud["rand"])]
-        idxs += ig.with_ellipsis()
-        idxs += ig.rank2()
-        negv = ig.negative_valued()
+        idxs += take(ig.with_ellipsis(), bud["ellipsis"])
+        idxs += take(ig.rank2(), bud["rank2"])
+        negv = take(ig.negative_valued(), bud["negval"])
         seen = set()
         second = 0
         for which, lst in (("std", idxs), ("negval", negv)):
